@@ -18,7 +18,7 @@ from fsim.worlds.estimator import MinimizeSeam, config_dict
 GRAPH = {"Start": {"symbolic_model": "Symbolic_Model"}, "Symbolic_Model": {"fit_model": "Fit_Model"}, "Fit_Model": {}}
 STATES = ["Start", "Symbolic_Model", "Fit_Model"]
 BAD_TARGETS = ["Fit_Model", 2, None, "StateId.Start"]
-HYPER = {"innovation_filtering": [None, 1.0, 3.0, 5.0, 7.0], "max_dt_sec": [0.05, 0.1, 0.5], "common_subexpression_elimination": [False]}
+HYPER = {"innovation_filtering": [None, None, 1.0, 3.0, 7.0, 5.0], "max_dt_sec": [0.05, 0.1, 0.5], "common_subexpression_elimination": [False]}
 DEFAULTS = {"common_subexpression_elimination": "True", "extra_validation": "False", "max_dt_sec": "0.1", "innovation_filtering": "5.0"}
 
 
@@ -51,7 +51,7 @@ def generate(rng, prop, tier):
     pool = ["Start"]  # reference states of pooled objects
     n_ops = rng.randint(8, 16 if tier == "quick" else 40)
     fits = 0
-    max_fits = 1 if tier == "quick" else 3
+    max_fits = 2 if tier == "quick" else 4
     for _ in range(n_ops):
         r = rng.random()
         src = rng.randrange(len(pool))
@@ -68,7 +68,9 @@ def generate(rng, prop, tier):
             else:
                 grid = {}
                 for k in rng.sample(sorted(HYPER), rng.randint(1, 2)):
-                    grid[k] = rng.sample(HYPER[k], min(len(HYPER[k]), rng.randint(1, 2)))
+                    grid[k] = sorted(set(rng.sample(HYPER[k], min(len(HYPER[k]), rng.choice([1, 1, 2])))), key=repr)
+                if rng.random() < 0.25:
+                    grid["innovation_filtering"] = [None]  # filtering pinned off: a single-valued dimension whose value is None
                 ops.append({"op": "fit_model", "from": rng.choice(sms), "data": "ok", "grid": grid, "minimize": rng.choice(["early_stop:2", "early_stop:1", "early_stop:3", "real"]), "faults": []})
                 pool.append("Fit_Model")
                 fits += 1
